@@ -56,7 +56,7 @@ func runNGAPSweep(ctx *Ctx, prop string) {
 		}
 	}
 	bound := 1
-	budget := 70 * time.Second
+	budget := 10 * time.Minute // (quick finishes in well under a minute on an idle machine; the budget only guards against a runaway, and a busy machine must not shrink what is covered)
 	if ctx.Thorough {
 		bound = 2
 		budget = 14 * time.Minute
